@@ -301,7 +301,13 @@ def builtin(ex, ins, name):
     if name == 'copy':
         return copy_(ex, ins, args)
     if name == 'recover':
-        ex.setv(ins, V(vc.declare(ex.nm(ins['n']), 'Any'), 'Any', ins['t']))
+        rv = getattr(ex.top, 'recover_val', None)
+        if rv is not None:
+            # panicking: the first recover() in the deferred closure returns the panic value and stops the panic
+            ex.top.recover_val = None
+            ex.setv(ins, V(rv.term, 'Any', ins['t']))
+        else:
+            ex.setv(ins, V('a.nil', 'Any', ins['t']))
         return
     if name in ('print', 'println'):
         return
